@@ -666,3 +666,142 @@ Definition spure (r : srequest) : bool :=
   | SGet _ | SList | SValidate _ | SGetBatch _ | SListBatches _ => true
   | _ => false
   end.
+
+(* which library calls a handler makes on the object it looks up *)
+Inductive rclass :=
+| KNone      (* no stored object is looked up: create, list, segment of a posted body *)
+| KPure      (* the object is marshalled / validated (C14: stores nothing) *)
+| KEdit      (* the ID map or the object's own Batches list: delete, add batch, delete batch *)
+| KCreate    (* File.Create runs on it: contents, build *)
+| KDerive.   (* Batch.Create runs on batches holding its entries: flatten, segment, balance *)
+
+Definition rclass_of (r : srequest) : rclass :=
+  match r with
+  | SCreate _ _ _ | SList | SSegmentBody _ _ => KNone
+  | SGet _ | SValidate _ | SGetBatch _ | SListBatches _ => KPure
+  | SDelete _ | SAddBatch _ _ _ _ | SDelBatch _ _ => KEdit
+  | SContents _ | SBuild _ => KCreate
+  | SFlatten _ _ | SSegment _ _ | SBalance _ _ _ => KDerive
+  end.
+
+(* ---------------------------------------------------------------- stored files the read routes leave alone *)
+
+Open Scope Z_scope.
+
+(* File.Create keeps this header / control number at position seq *)
+Definition num_fix (seq : Z) (b : bcell) : bool :=
+  (1 <? bc_num b) || ((bc_num b =? seq) && (Offsets.c_num (bc_ctl b) =? seq)).
+
+Fixpoint nums_fix (s : sstate) (seq : Z) (qs : list N) : bool :=
+  match qs with
+  | [] => true
+  | q :: r => num_fix seq (ss_bat s q) && nums_fix s (seq + 1) r
+  end.
+
+Definition fctl_eqb (a b : Offsets.fctl) : bool :=
+  (Offsets.fc_batches a =? Offsets.fc_batches b) && (Offsets.fc_blocks a =? Offsets.fc_blocks b) &&
+  (Offsets.fc_count a =? Offsets.fc_count b) && (Offsets.fc_hash a =? Offsets.fc_hash b) &&
+  (Offsets.fc_debit a =? Offsets.fc_debit b) && (Offsets.fc_credit a =? Offsets.fc_credit b).
+
+(* the two guards of File.Create pass *)
+Definition guards_ok (s : sstate) (p : N) : bool :=
+  let f := ss_file s p in
+  let o := fo_opts f in
+  negb (negb (co_skip o) && negb (co_nohdr o) && negb (fo_hdr_ok f)) &&
+  negb (negb (co_skip o) && negb (co_zero o) && is_nil (all_bats f)).
+
+(* File.Create on the object writes nothing new: its guards refuse it, or (no ADV batch) every
+   batch number is one it keeps and the file control is the one it would compute *)
+Definition file_fix (s : sstate) (p : N) : bool :=
+  let f := ss_file s p in
+  negb (guards_ok s p) ||
+  (negb (existsb (fun q => bc_adv (ss_bat s q)) (fo_bats f)) &&
+   nums_fix s 1 (all_bats f) &&
+   fctl_eqb (fo_ctl f) (fctl_of (ctls s (all_bats f)))).
+
+(* the trace loop of a Batch.build with this ODFI / these options leaves the entry alone *)
+Definition ent_quiet (s : sstate) (odfi : Z) (keep : bool) (e : N) : bool :=
+  keep || (Offsets.trace_odfi (ec_trace (ss_ent s e)) =? odfi).
+
+(* every entry carries the batch's ODFI (or the batch's options keep trace numbers), the batch is
+   no mixed IAT batch (SegmentFile would blank its trace numbers) and no ADV batch *)
+Definition bat_calm (s : sstate) (q : N) : bool :=
+  let b := ss_bat s q in
+  forallb (ent_quiet s (bc_odfi b) (bc_keep b)) (bc_ents b) &&
+  negb (bc_iat b && (bc_svc b =? svc_mixed)) && negb (bc_adv b).
+
+Fixpoint nodupb (l : list N) : bool :=
+  match l with
+  | [] => true
+  | a :: r => negb (existsb (N.eqb a) r) && nodupb r
+  end.
+
+(* no batch twice in the file; File.Batches holds the standard batches, File.IATBatches the IAT ones *)
+Definition lists_ok (s : sstate) (p : N) : bool :=
+  let f := ss_file s p in
+  nodupb (all_bats f) &&
+  forallb (fun q => negb (bc_iat (ss_bat s q))) (fo_bats f) &&
+  forallb (fun q => bc_iat (ss_bat s q)) (fo_iats f).
+
+Definition file_stable (s : sstate) (p : N) : bool :=
+  file_fix s p && forallb (bat_calm s) (all_bats (ss_file s p)) && lists_ok s p.
+
+Definition all_stable (s : sstate) : bool := forallb (fun ip => file_stable s (snd ip)) (ss_store s).
+
+(* the label of a flatten names batches FlattenBatches may consolidate: one ODFI per group
+   (equal header signatures), every entry of the group taken from a batch of the group *)
+Definition wf_group (s : sstate) (p : N) (g : group) : bool :=
+  match somes (map (bat_at s p) (g_srcs g)) with
+  | [] => true
+  | q0 :: r =>
+      forallb (fun q => bc_odfi (ss_bat s q) =? bc_odfi (ss_bat s q0)) (q0 :: r) &&
+      forallb (fun kj => existsb (Nat.eqb (fst kj)) (g_srcs g)) (g_refs g)
+  end.
+
+(* an observed write that writes what is there *)
+Definition write_noop (s : sstate) (p : N) (w : write) : bool :=
+  match w with
+  | WTrace k j t => match ent_at s p (k, j) with
+                    | Some e => ec_trace (ss_ent s e) =? t
+                    | None => true
+                    end
+  | WNum k n cn => match bat_at s p k with
+                   | Some q => (bc_num (ss_bat s q) =? n) && (Offsets.c_num (bc_ctl (ss_bat s q)) =? cn)
+                   | None => true
+                   end
+  end.
+
+Definition wf_label (s : sstate) (r : srequest) : bool :=
+  match r with
+  | SFlatten i l =>
+      match lookup (ss_store s) i with
+      | Some p => match l with
+                  | FlatOk gs _ => forallb (wf_group s p) gs
+                  | FlatErr ws => forallb (write_noop s p) ws
+                  end
+      | None => true
+      end
+  | SSegment i (SegErr _ ws) =>
+      match lookup (ss_store s) i with
+      | Some p => forallb (write_noop s p) ws
+      | None => true
+      end
+  | _ => true
+  end.
+
+Open Scope N_scope.
+
+(* the read requests that address a stored file, and the listing *)
+Definition sread_stored (r : srequest) : bool :=
+  match r with
+  | SGet _ | SList | SContents _ | SValidate _ | SBuild _ | SGetBatch _ | SListBatches _
+  | SFlatten _ _ | SSegment _ _ => true
+  | _ => false
+  end.
+
+(* the labels along a history are well formed, each in the state its request meets *)
+Fixpoint wf_run (s : sstate) (rs : list srequest) : bool :=
+  match rs with
+  | [] => true
+  | r :: t => wf_label s r && wf_run (fst (sstep s r)) t
+  end.
